@@ -132,7 +132,17 @@ Build(m0, hunks0) ==
       ren |-> m.renF /\ m.renT, operm |-> m.operm, nperm |-> m.nperm, ohash |-> m.ohash, nhash |-> m.nhash,
       hunks |-> hunks]
 
+\* file modes: a mode line carries exactly six octal digits; the parser keeps the number and the writer prints it
+\* with six digits again.  Tokens carry the digits as written, file patches the number (digits without leading
+\* zeros); a line with fewer than six digits is not a mode line.
+LZModes == {<<"000644", "644">>, <<"040000", "40000">>, <<"000755", "755">>}
+ModeVal(d) == IF \E p \in LZModes : p[1] = d THEN (CHOOSE p \in LZModes : p[1] = d)[2] ELSE d
+ModePad(v) == IF \E p \in LZModes : p[2] = v THEN (CHOOSE p \in LZModes : p[2] = v)[1] ELSE v
+ShortMode(d) == \E p \in LZModes : p[2] = d
 GitMeta == {"index", "oldmode", "newmode", "delmode", "newfilemode", "renfrom", "rento", "copyfrom", "copyto", "binary"}
+ModeToks == {"oldmode", "newmode", "delmode", "newfilemode"}
+IsGitMeta(t) == t.k \in GitMeta /\ ~(t.k \in ModeToks /\ ShortMode(t.m))
+
 
 (* parse_filepatch: result [r |-> "fp", next, fp] | [r |-> "end"] | [r |-> "err", err] *)
 RECURSIVE MetaLoop(_, _, _, _, _, _)
@@ -155,16 +165,16 @@ MetaLoop(toks, trunc, i, git, ext, m) ==
      ELSE MetaLoop(toks, trunc, i + 1, TRUE, ext, [EmptyMeta EXCEPT !.old = t.o, !.new = t.n])
   ELSE IF t.k = "minus" THEN MetaLoop(toks, trunc, i + 1, git, ext, [m EXCEPT !.old = t.n])
   ELSE IF t.k = "plus"  THEN MetaLoop(toks, trunc, i + 1, git, ext, [m EXCEPT !.new = t.n])
-  ELSE IF git /\ t.k \in GitMeta THEN
+  ELSE IF git /\ IsGitMeta(t) THEN
      IF t.k = "binary" THEN [r |-> "err", err |-> "UnsupportedMetadata"]
      ELSE MetaLoop(toks, trunc, i + 1, git, TRUE,
             CASE t.k = "index"       -> [m EXCEPT !.ohash = t.o, !.nhash = t.n]
               [] t.k = "renfrom"     -> [m EXCEPT !.renF = TRUE]
               [] t.k = "rento"       -> [m EXCEPT !.renT = TRUE]
-              [] t.k = "oldmode"     -> [m EXCEPT !.operm = t.m]
-              [] t.k = "delmode"     -> [m EXCEPT !.operm = t.m, !.delF = TRUE]
-              [] t.k = "newmode"     -> [m EXCEPT !.nperm = t.m]
-              [] t.k = "newfilemode" -> [m EXCEPT !.nperm = t.m, !.newF = TRUE]
+              [] t.k = "oldmode"     -> [m EXCEPT !.operm = ModeVal(t.m)]
+              [] t.k = "delmode"     -> [m EXCEPT !.operm = ModeVal(t.m), !.delF = TRUE]
+              [] t.k = "newmode"     -> [m EXCEPT !.nperm = ModeVal(t.m)]
+              [] t.k = "newfilemode" -> [m EXCEPT !.nperm = ModeVal(t.m), !.newF = TRUE]
               [] OTHER               -> m)
   ELSE MetaLoop(toks, trunc, i + 1, git, ext, m)         \* garbage
 
@@ -224,8 +234,8 @@ WriteFP(fp) ==
       n == IF fp.new # NULL THEN fp.new ELSE fp.old
   IN <<[k |-> "git", o |-> o, n |-> n]>>
      \o (IF fp.ren THEN <<[k |-> "renfrom"], [k |-> "rento"]>> ELSE <<>>)
-     \o (IF fp.operm # NONE THEN <<[k |-> IF fp.kind = "D" THEN "delmode" ELSE "oldmode", m |-> fp.operm]>> ELSE <<>>)
-     \o (IF fp.nperm # NONE THEN <<[k |-> IF fp.kind = "C" THEN "newfilemode" ELSE "newmode", m |-> fp.nperm]>> ELSE <<>>)
+     \o (IF fp.operm # NONE THEN <<[k |-> IF fp.kind = "D" THEN "delmode" ELSE "oldmode", m |-> ModePad(fp.operm)]>> ELSE <<>>)
+     \o (IF fp.nperm # NONE THEN <<[k |-> IF fp.kind = "C" THEN "newfilemode" ELSE "newmode", m |-> ModePad(fp.nperm)]>> ELSE <<>>)
      \o (IF fp.ohash # NONE /\ fp.nhash # NONE THEN <<[k |-> "index", o |-> fp.ohash, n |-> fp.nhash]>> ELSE <<>>)
      \o <<[k |-> "minus", n |-> fp.old], [k |-> "plus", n |-> fp.new]>>
      \o AllHunkToks(fp.hunks)
@@ -238,5 +248,8 @@ HunkEq(a, b) == a.os = b.os /\ a.ns = b.ns /\ a.old = b.old /\ a.new = b.new
 FPEq(a, b) == /\ a.kind = b.kind /\ a.old = b.old /\ a.new = b.new /\ a.ren = b.ren
               /\ a.operm = b.operm /\ a.nperm = b.nperm /\ a.ohash = b.ohash /\ a.nhash = b.nhash
               /\ Len(a.hunks) = Len(b.hunks) /\ \A i \in 1..Len(a.hunks) : HunkEq(a.hunks[i], b.hunks[i])
+\* a file patch that carries nothing but its names: the parser builds it from lines it recognises and ignores
+\* ("copy from"/"copy to"); the writer has nothing to write for it (known deviation from C12)
+IsCopyOnly(fp) == fp.hunks = <<>> /\ ~fp.ren /\ fp.operm = NONE /\ fp.nperm = NONE /\ fp.ohash = NONE
 PatchEq(p, q) == Len(p) = Len(q) /\ \A i \in 1..Len(p) : FPEq(p[i], q[i])
 =============================================================================
